@@ -7,6 +7,7 @@ the loop) equals the documented table, exhaustively over the operator set.
 import re
 
 from .lib import hir as H
+from .lib import decide as D
 from .lib import facts as factsmod
 from .lib.tables import parse_rules_table, scanner_glyphs, doc_precedence_rows
 
@@ -130,36 +131,44 @@ def run(F, R, tier):
         R.anchor(impl + name, f)
         return f
 
-    # C1 comparator per associativity in peek_valid_expression
+    # C1 comparator per associativity in peek_valid_expression: the function's decision table against the reference
+    # (false on `;` and end of input; otherwise `precedence < peek` for a left-associative next token and
+    # `precedence <= peek` for a right-associative one) — however the function spells it
     f = fn("peek_valid_expression")
     if f:
-        cmpops = {}
-        for m in H.find(H.body_of(f), lambda x: x.get("k") == "match"):
-            if "peek_associativity" not in H.render(m["scrut"]):
-                continue
-            for a in m["arms"]:
-                for v in H.pat_variants(a["pat"]):
-                    b = H.strip(a["body"])
-                    if b.get("k") == "bin":
-                        cmpops[H.last(v)] = (b["op"], H.render(b["l"]), H.render(b["r"]), b.get("callee"))
-        R.ob("comparator", "Left uses <", cmpops.get("Left", ("",))[0] == "<" and cmpops["Left"][1] == "precedence"
-             and cmpops["Left"][2] == "self.peek_precedence()", str(cmpops.get("Left")), F.loc(f))
-        R.ob("comparator", "Right uses <=", cmpops.get("Right", ("",))[0] == "<=" and cmpops["Right"][1] == "precedence"
-             and cmpops["Right"][2] == "self.peek_precedence()", str(cmpops.get("Right")), F.loc(f))
-        # the result must be a conjunction containing the comparator (not negated / or-ed away)
-        leaves = H.return_leaves(H.body_of(f))
-        txt = [H.render(e) for e, _ in leaves]
-        R.ob("comparator", "result conjoins the precedence condition",
-             len(txt) == 1 and txt[0].startswith("((precedence_cond && ") or (len(txt) == 1 and txt[0].startswith("(precedence_cond && ")),
-             "; ".join(txt), F.loc(f))
+        rows, why = D.table(F, f, keep=("peek_precedence",))
+        if rows is None:
+            R.ob("comparator", "peek_valid_expression is a decision over the next token", False, why, F.loc(f))
+        else:
+            roles = [(r"^self\.peek_next\.ttype : TokenType$", "tok"), (r"associativity.* : Associativity$|peek_associativity\(\) : Associativity$", "assoc"),
+                     (r"^precedence < self\.peek_precedence\(\)$", "lt"), (r"^self\.peek_precedence\(\) < precedence$", "gt")]
+            doms = {"tok": ("Semicolon", "Eof", "other"), "assoc": ("Left", "Right"), "lt": (True, False), "gt": (True, False)}
+
+            def ref(e):
+                if e["lt"] and e["gt"]:
+                    return None
+                if e["tok"] in ("Semicolon", "Eof"):
+                    return False
+                return e["lt"] if e["assoc"] == "Left" else (not e["gt"])
+            ok, det = D.check(rows, roles, doms, ref)
+            R.ob("comparator", "Left uses <, Right uses <=, never past `;` or the end of input", ok, det, F.loc(f))
 
     # C2 operand precedence of each prefix/infix parser
     def pe_args(name, impl=P):
         f = fn(name, impl)
         if not f:
             return None, []
-        cs = [c for c in H.calls_to(H.body_of(f), r"parser::Parser::parse_expression$")]
+        cs = [c for c in H.calls_to(ibody(f), r"parser::Parser::parse_expression$")]
         return f, cs
+
+    KEEP = ("parse_expression", "curr_precedence", "peek_precedence", "next_token", "peek_valid_expression", "peek_infix", "curr_prefix")
+    _ib = {}
+
+    def ibody(f):
+        """the function's body with its small helpers inlined (a helper that parses `the right operand` is part of it)"""
+        if f["path"] not in _ib:
+            _ib[f["path"]] = H.body_inl(F, f, keep=KEEP)
+        return _ib[f["path"]]
 
     def arg_origin(f, arg):
         """classify the precedence argument: ctor name, or the call that initialises the local"""
@@ -170,7 +179,7 @@ def run(F, R, tier):
             lid = H.local_id(arg)
             inits = []
             writes = 0
-            for x in H.walk(H.body_of(f)):
+            for x in H.walk(ibody(f)):
                 if x.get("k") == "let" and x["pat"].get("k") == "bind" and x["pat"]["id"] == lid and "init" in x:
                     inits.append(H.render(x["init"]))
                 if x.get("k") in ("assign", "assignop") and H.local_id(x["l"]) == lid:
@@ -200,11 +209,11 @@ def run(F, R, tier):
         f = F.fn(P + name)
         if not f:
             continue
-        order = [H.last(c.get("callee")) for c in H.walk(H.body_of(f)) if c.get("k") in ("call", "mcall")
+        order = [H.last(c.get("callee")) for c in H.walk(ibody(f)) if c.get("k") in ("call", "mcall")
                  and H.last(c.get("callee") or "") in ("curr_precedence", "next_token", "parse_expression")]
         R.ob("infix-sequence", name, order == ["curr_precedence", "next_token", "parse_expression"],
              "call order %s" % order, F.loc(f))
-        st = [x for x in H.walk(H.body_of(f)) if x.get("k") == "struct" and H.last(x["res"].get("path")) == struct]
+        st = [x for x in H.walk(ibody(f)) if x.get("k") == "struct" and H.last(x["res"].get("path")) == struct]
         ok = False
         if st:
             fl = {fd["name"]: H.render(H.strip(fd["e"])) for fd in st[0]["fields"]}
@@ -214,33 +223,29 @@ def run(F, R, tier):
             det = "no BinaryExpr literal"
         R.ob("infix-operands", name, ok, det, F.loc(f))
 
-    # C3 curr_/peek_precedence: table entry of the right token, MatchOr only under in_match_pattern for '|'
+    # C3 curr_/peek_precedence: table entry of the right token, MatchOr exactly under in_match_pattern for '|'
     for name, tok in (("curr_precedence", "current"), ("peek_precedence", "peek_next")):
         f = fn(name)
         if not f:
             continue
-        leaves = H.return_leaves(H.body_of(f))
-        ok = len(leaves) == 2
-        det = []
-        for e, g in leaves:
-            gt = H.guard_text(g)
-            et = H.render(e)
-            det.append("%s when %s" % (et, gt))
-            c = H.ctor_of(e)
-            if c:
-                ok = ok and H.last(c) == "MatchOr" and "self.in_match_pattern" in gt and "BitwiseOr" in gt \
-                    and ("self.%s.ttype" % tok) in gt and not gt.startswith("!")
-            else:
-                ok = ok and et == "PARSE_RULES[self.%s.ttype as usize].precedence" % tok
-        R.ob("precedence-lookup", name, ok, "; ".join(det), F.loc(f))
+        rows, why = D.table(F, f)
+        if rows is None:
+            R.ob("precedence-lookup", name, False, why, F.loc(f))
+            continue
+        roles = [(r"^self\.in_match_pattern$", "inpat"), (r"^self\.%s\.ttype : TokenType$" % tok, "tok")]
+        doms = {"inpat": (True, False), "tok": ("BitwiseOr", "other")}
+        entry = "PARSE_RULES[self.%s.ttype as usize].precedence" % tok
+        ok, det = D.check(rows, roles, doms, lambda e: "Precedence::MatchOr" if (e["inpat"] and e["tok"] == "BitwiseOr") else entry)
+        R.ob("precedence-lookup", name, ok, det, F.loc(f))
     for name, tok, field in (("peek_infix", "peek_next", "infix"), ("curr_prefix", "current", "prefix"),
                              ("peek_associativity", "peek_next", "associativity")):
         f = fn(name)
         if not f:
             continue
-        leaves = [H.render(e) for e, _ in H.return_leaves(H.body_of(f))]
-        R.ob("table-lookup", name, leaves == ["PARSE_RULES[self.%s.ttype as usize].%s" % (tok, field)],
-             "; ".join(leaves), F.loc(f))
+        rows, why = D.table(F, f)
+        want = "PARSE_RULES[self.%s.ttype as usize].%s" % (tok, field)
+        ok = rows is not None and len(rows) == 1 and rows[0][1] == want and not rows[0][0]
+        R.ob("table-lookup", name, ok, why or "; ".join("%s when %s" % (r, e or "always") for e, r in rows), F.loc(f))
 
     # C4 in_match_pattern written only in parse_match_pattern, as a true/false pair
     writers = {}
@@ -257,7 +262,7 @@ def run(F, R, tier):
     # C5 the Pratt loop hands `precedence` unchanged to peek_valid_expression
     f = fn("parse_expression", "parser::Parser::")
     if f:
-        b = H.body_of(f)
+        b = ibody(f)
         cs = H.calls_to(b, r"peek_valid_expression$")
         pid = None
         for p in f["hir"]["params"]:
@@ -270,7 +275,7 @@ def run(F, R, tier):
         loops = [x for x in H.walk(b) if x.get("k") == "loop"]
         txt = H.render(loops[0]) if loops else ""
         ok = bool(loops) and "self.peek_infix()" in txt and "self.next_token()" in txt and re.search(
-            r"left_expr = infix\(self, left_expr\)", txt) is not None
+            r"\b(\w+) = \w+\(self, \1\)", txt) is not None
         R.ob("pratt-loop", "infix applied to accumulated left operand", ok, txt[:200], F.loc(f))
         # the operator loop is left only when peek_valid_expression(precedence) says so (or there is no infix parser for
         # the next token): any other way out of the loop stops absorbing operators on some *syntactic* condition, so a
